@@ -1631,6 +1631,30 @@ fn c09(cases: &mut u64) -> Option<String> {
 fn c11(cases: &mut u64) -> Option<String> {
     let all = seqs(3, bd(5));
     let exact = Rules { carried: Carried::Exact, finish: Fin::Ignore, nonempty: false };
+    // what exactness of the captured ops rests on (and what does not pass through the compaction swap of known finding
+    // K1): the RAW callback stream of every algorithm without a deadline, and of LCS also with an expired deadline,
+    // carries exact indices on both sides
+    for o in &all {
+        let (oa, or) = embed_old(o);
+        for n in &all {
+            let (na, nr) = embed_new(n);
+            for &alg in &ALGS {
+                for expired in [false, true] {
+                    if expired && alg != Algorithm::Lcs {
+                        continue;
+                    }
+                    *cases += 1;
+                    let dl = if expired { Some(expired_deadline()) } else { None };
+                    match run_raw(alg, &oa[..], or.clone(), &na[..], nr.clone(), dl) {
+                        Err(p) => return Some(format!("C11 raw alg={:?} old={:?}[{:?}] new={:?}[{:?}]: {}", alg, oa, or, na, nr, p)),
+                        Ok((_, calls)) => if let Err(e) = check_script(&calls, &oa, or.clone(), &na, nr.clone(), exact) {
+                            return Some(format!("C11 raw callbacks of alg={:?} deadline={} old={:?}[{:?}] new={:?}[{:?}]: {:?}: {} (the captured ops take their carried indices from these callbacks)", alg, if expired { "expired" } else { "None" }, oa, or, na, nr, calls, e));
+                        },
+                    }
+                }
+            }
+        }
+    }
     for o in &all {
         let (oa, or) = embed_old(o);
         for n in &all {
@@ -2623,7 +2647,7 @@ fn main() {
         "C03" => (c03(&mut cases), "alphabet {0,1,2} len 0..=6 and alphabet {0,1} len 0..=8, Myers + LCS, raw + captured; 4 pairs of 400..900 items with edit distances in the hundreds"),
         "C09" => (c09(&mut cases), "alphabet {0,1,2}, len 0..=6, deadline none/expired; TextDiff line diffs of 101..260 lines"),
         "C10" => (c10(&mut cases), "alphabet {0,1}, len 0..=3, all valid scripts x all carried indices x 3 adapter stacks"),
-        "C11" => (c11(&mut cases), "alphabet {0,1,2}, len 0..=5, slices + embedded sub-ranges"),
+        "C11" => (c11(&mut cases), "alphabet {0,1,2}, len 0..=5, slices + embedded sub-ranges; raw callback streams (all algorithms without deadline, LCS with an expired deadline) + captured ops"),
         "C12" => (c12(&mut cases), "alternating exact op lists up to 8 ops, equal lens {1,2,3,5,8}, 6 change shapes, n 0..=3; TextDiff::grouped_ops / Capture::into_grouped_ops == group_diff_ops on char diffs (alphabet {0,1,2}, len 0..=4, n 0..=2) and on 2^23 equal lines + 1 inserted line"),
         "C13" => (c13(&mut cases), "synthetic ops + captured ops for alphabet {0,1,2} len 0..=5 + TextDiff chars"),
         "C05" => (c05(&mut cases), "lines {a,b,c}, 0..=4 lines, optional missing final newline, radius 0..=2, deadline none / expired; 21 line diffs of 101..260 lines"),
